@@ -76,6 +76,7 @@ func runC08(c *Ctx) {
 
 	// the "negotiated media type" is what NegotiateContentType selects
 	negotiateSelection(c, "R08.2", "R08.2")
+	negotiateMatchers(c, "R08.2")
 	// R08.2 header before body
 	var ctSet ssa.Instruction
 	for _, ci := range callsIn(f, "(net/http.Header).Set") {
@@ -217,6 +218,16 @@ func runC08(c *Ctx) {
 				}
 			}
 			c.obI("R08.5", ci, "challenge-names-realm", g && okV, "a failed basic-auth attempt is challenged with the realm recorded by the authenticator", "")
+			// ... and always: once the marker is there, no error class skips the challenge
+			for _, fbc := range callsIn(f, "rt/security.FailedBasicAuth") {
+				skipped := false
+				for _, r := range realReturns(f) {
+					if pathExists(f, fbc, r, factEqString(fb, "", true), isOneOf(ci)) {
+						skipped = true
+					}
+				}
+				c.obI("R08.5", fbc, "challenge-for-every-error-class", !skipped, "whenever the failed-basic-auth marker is present the error response carries the WWW-Authenticate challenge, whatever the class or code of the error", "a path with the marker present reaches the end of Respond without setting WWW-Authenticate")
+			}
 		}
 	}
 	c.min("R08.5", 4)
